@@ -170,17 +170,28 @@ impl<'tcx> Cx<'tcx> {
                 ProjectionElem::Field(f, ty) => {
                     // field name if the base is an ADT
                     let mut fname = String::new();
+                    let mut adt_path = String::new();
+                    let mut vname = String::new();
                     if let ty::Adt(adt, _) = cur.ty.kind() {
                         let vi = cur.variant_index.unwrap_or(rustc_abi::FIRST_VARIANT);
                         if adt.is_enum() || adt.is_struct() {
+                            adt_path = self.path(adt.did());
                             if let Some(v) = adt.variants().get(vi) {
+                                vname = v.name.to_string();
                                 if let Some(fd) = v.fields.get(f) {
                                     fname = fd.name.to_string();
                                 }
                             }
                         }
                     }
-                    jlist(&[js("f"), format!("{}", f.as_usize()), js(&self.ty_str(ty)), js(&fname)])
+                    jlist(&[
+                        js("f"),
+                        format!("{}", f.as_usize()),
+                        js(&self.ty_str(ty)),
+                        js(&fname),
+                        js(&adt_path),
+                        js(&vname),
+                    ])
                 }
                 ProjectionElem::Downcast(name, vi) => {
                     let n = match name {
